@@ -22,6 +22,7 @@ EXPLANATION = (
     "extracted decision structures over a finite character domain). R8 (TAB): the stdin reader's byte classifier, evaluated as a decision "
     "structure on every byte that occurs in valid UTF-8, equals the UTF-8 lead-byte table, so the two transports deliver the same characters."
     " R5 also: the stdin reader answers None only with nothing collected and only behind the end-of-input edge; token separators are read without assertion code and character-class predicates are reported. R9: a label's offset is parsed with 'sign required' and parse_integer honours it. R10: the argument reader's byte cursor is advanced by byte quantities only. R11: the integer parser uses no wrapping/saturating/overflowing arithmetic. R12: TryParse implementations strip their sigil once (no trim_*_matches). R13: the integer parser and its pre-classifier single out no characters beyond sign, #, radix letters and 0. R5 also: Stream::read and CommandReader::read hand the answer of the transport on unchanged (no Option-shaping call, no None of their own except behind the None of the transport)."
+    " R14: behind the no-digit outcome of Radix::parse_digit in the integer parser no branch consults the offending character again (integer or label is decided by sign and prefix alone). R9 also accepts the sign request spelled as a test in front of the call (reached only for an empty text or one that starts with + or -)."
 )
 
 NOT_DECIDED = "the value denoted by every spelling of an integer or label (a grammar-level, value-quantified matter); invalid UTF-8 on stdin (outside the quantifier: strings)"
@@ -861,4 +862,43 @@ def run(ctx):
             ctx.violation("integer-extra-char|%s" % short(fname), f.file_line(),
                           "`%s` gives the character(s) %s a meaning inside integers: a label such as `x_1` (which the assembler accepts) is then read as the "
                           "number 1 wherever a location is expected, and its word can no longer be named" % (short(fname), extra))
+    ctx.finish_rule()
+
+    # ------------------------------------------------------------------ R14
+    # "not a digit" ends the integer the same way whatever the character is: whether the token is a malformed integer or may still be a
+    # label depends on its sign and prefix only (`b1+1`, `x1g` go on to the label parser; `-x1g`, `#1g`, `01g` are malformed integers).
+    # Behind the no-digit outcome of Radix::parse_digit no branch consults the offending character again.
+    ctx.rule("C14.R14", "what follows the digits of an integer does not decide whether the token is an integer", floor=1)
+    nd14 = 0
+    for b, t, c in pint.calls():
+        if c != pdg.name or t.get("t") is None:
+            continue
+        sw = pint.term(t["t"])
+        swd = kit.switch_on_discr_of_local(pint, t["t"])
+        if sw["k"] != "switch" or not swd:
+            continue
+        tg14 = {v: x for v, x in sw["targets"]}
+        none_t = tg14.get(0, sw["otherwise"] if 1 in tg14 else None)
+        if none_t is None:
+            continue
+        nd14 += 1
+        ctx.instance(1)
+        ch_e = kit.strip_refs(pint.expr(t["args"][1], 8, stop={"named"})) if len(t["args"]) > 1 else None
+        heads14 = set(kit.loops(pint))
+        region = pint.reachable(none_t, avoid=heads14)
+        bad14 = None
+        for bb in sorted(region):
+            tt = pint.term(bb)
+            cond = None
+            if tt["k"] == "switch":
+                cond = pint.expr(tt["a"], 10, stop={"named"})
+            if cond is not None and ch_e is not None and any(x == ch_e for x in expr_walk(cond)):
+                bad14 = (bb, cond)
+                break
+        ctx.oblig(bad14 is None, {"no-digit outcome": "decided without looking at the character again"}, "no branch on the character behind parse_digit -> None")
+        if bad14:
+            ctx.violation("non-digit-decides", sp_file_line(pint.term(bad14[0]).get("sp")),
+                          "behind `parse_digit(ch) == None` the integer parser branches on `%s`: whether a token such as `b1+1` is handed on to the label parser then "
+                          "depends on the character after the digits, and `label+offset` stops working for labels that look like a prefixed integer" % expr_str(bad14[1], 80))
+    ctx.need(nd14 >= 1, "the digit test of the integer parser (parse_digit with its None outcome)")
     ctx.finish_rule()
